@@ -100,8 +100,10 @@ impl SamplerRepeatPot {
     /// # Panics
     /// If the width or height of `tex` is not a power of two.
     pub fn new<C>(tex: &Texture<impl AsSlice2<C>>) -> Self {
-        let w = tex.width() as u32;
-        let h = tex.height() as u32;
+        // The f32 `tex.width()` is not exact beyond 2^24 texels: 33554431
+        // would round to 2^25 and pass the test
+        let data = tex.data.as_slice2();
+        let (w, h) = (data.width(), data.height());
         assert!(w.is_power_of_two(), "width must be 2^n, was {w}");
         assert!(h.is_power_of_two(), "height must be 2^n, was {h}");
         Self { w_mask: w - 1, h_mask: h - 1 }
